@@ -23,6 +23,7 @@ import EEM.Model.HourlyPrep
 import EEM.Model.Refine
 import EEM.Model.Resample
 import EEM.Model.TempAgg
+import EEM.Model.Sufficiency
 
 open EEM EEM.Proto EEM.Model
 
@@ -625,6 +626,40 @@ def opTempAgg (args : List String) : String :=
     | _, _ => "bad-op"
   | _ => "bad-op"
 
+def parseSuffRow (s : String) : Option Model.Sufficiency.Row :=
+  match s.splitOn "," with
+  | [t, m, op, on, tp, tc, g, c] => do
+    let b : String → Option Bool := fun | "1" => some true | "0" => some false | _ => none
+    let ghi ← (if g == "-" then some none else (b g).map some)
+    some { t := ← t.toInt?, month := ← m.toNat?, obsPresent := ← b op, obsNegative := ← b on, tempPresent := ← b tp,
+           tempCovOK := ← b tc, ghi := ghi, complete := ← b c }
+  | _ => none
+
+def showDQ : Model.Sufficiency.DQ → String
+  | .no_data => "no_data" | .negative_meter_values => "negative_meter_values"
+  | .incorrect_number_of_total_days => "incorrect_number_of_total_days"
+  | .too_many_days_with_missing_data => "too_many_days_with_missing_data"
+  | .too_many_days_with_missing_meter_data => "too_many_days_with_missing_meter_data"
+  | .too_many_days_with_missing_temperature_data => "too_many_days_with_missing_temperature_data"
+  | .missing_monthly_temperature_data => "missing_monthly_temperature_data"
+  | .missing_monthly_meter_data => "missing_monthly_meter_data"
+  | .missing_monthly_ghi_data => "missing_monthly_ghi_data"
+
+/-- `suff <daily|billing|hourly> <reporting 0/1> <electric 0/1> <row ...>` -/
+def opSuff (args : List String) : String :=
+  match args with
+  | fam :: rep :: el :: rows =>
+    let fam? : Option Model.Sufficiency.Family := match fam with
+      | "daily" => some .daily | "billing" => some .billing | "hourly" => some .hourly | _ => none
+    match fam?, rows.mapM parseSuffRow with
+    | some f, some rs =>
+      let cfg : Model.Sufficiency.Cfg := { family := f, reporting := rep == "1", electric := el == "1" }
+      let v := Model.Sufficiency.verdict cfg rs
+      let nd := match Model.Sufficiency.nDaysTotal rs with | some n => toString n | none => "none"
+      s!"ok n_days_total={nd} " ++ " ".intercalate (v.map showDQ)
+    | _, _ => "bad-op"
+  | _ => "bad-op"
+
 def step (line : String) : String :=
   match words line with
   | "submodel" :: args => opPredictSubmodel args
@@ -636,6 +671,7 @@ def step (line : String) : String :=
   | "refine" :: args => opRefine args
   | "resample" :: args => opResample args
   | "tempagg" :: args => opTempAgg args
+  | "suff" :: args => opSuff args
   | "getk" :: args => opGetK args
   | "segrow" :: args => opSegRow args
   | "contribs" :: args => opContribs args
